@@ -265,7 +265,7 @@ def bounded_counterexample(c, fn, wanted, bound):
                     m = s.model()
                     try:
                         conc = S.NS(self=concrete_value(m, entry.self) if c.self_shape is not None else None,
-                                    v={k: concrete_value(m, entry.v[k]) for k in c.params})
+                                    v={k: concrete_value(m, entry.v[k]) for k in list(c.params) + list(getattr(c, 'ghost_params', {}))})
                         obj, args = c.build(conc)
                     except Exception as exn:
                         break
